@@ -417,9 +417,13 @@ func (g *docGen) render(n *cnode) string {
 		if len(n.kids) == 0 {
 			sb.WriteString("<td>" + g.words(g.short) + "</td>")
 		}
+		// header cells do not make a one-row table a data table: all th, all td, or mixed
+		mode := g.pick("td", "th", "mixed")
 		for _, c := range n.kids {
-			// header cells do not make a one-row table a data table
-			cell := g.pick("td", "td", "th")
+			cell := mode
+			if mode == "mixed" {
+				cell = g.pick("td", "th")
+			}
 			sb.WriteString("<" + cell + g.noiseAttrs() + ">" + g.render(c) + "</" + cell + ">")
 		}
 		sb.WriteString("</tr></table>")
